@@ -79,8 +79,8 @@ open_(['C08'], r'(postsolve\.(rcsign|compl-col|compl-row|dualsign|redcost)|basis
       'TightenBoundsPS: dual postsolve / basis status after bound tightening is incomplete (nonbasic at a bound the original LP does not have, wrong number of basic variables)', regex=True)
 open_(['C08'], r'basis\.(bound|singular|count)\.(okay|vanished):\{[^}]*\}',
       'postsolved basis can carry ON_LOWER/ON_UPPER/ZERO on a variable whose original bound is infinite / finite (FixVariable, FreeColSingleton, ZeroObjColSingleton, redundant-bound removal without PostStep)', regex=True)
-open_(['C08'], r'postsolve\.(compl-row|dualsign|compl-col|rcsign)\.(okay|vanished):\{[^}]*(ForceConstraint|RowSingleton)[^}]*\}',
-      'RowSingletonPS/ForceConstraintPS: dual of a removed singleton/forcing row gets the wrong sign for a row that is one-sided in the original LP', regex=True)
+open_(['C08'], r'postsolve\.(compl-row|dualsign)\.(okay|vanished):\{[^}]*RowSingleton[^}]*\}',
+      'RowSingletonPS: the dual of a removed singleton row gets the wrong sign / is not complementary for a row that is one-sided in the original LP', regex=True)
 open_(['C08'], r'objoffset\.(okay|vanished):\{[^}]*MultiAggregation[^}]*\}',
       'multi-aggregation does not add the constant part of the substituted objective term to the objective offset (reduced optimum + getObjoffset() != original optimum)', regex=True)
 open_(['C08'], 'verdict.UNBOUNDED-on-infeasible:{}', 'simplifier reports UNBOUNDED for an LP that is (primal) infeasible and dual infeasible')
